@@ -5,7 +5,7 @@ import ast
 
 from sa.astx import NotConst, call_attr, call_name, const_eval, lincmp, src, walk_local
 from sa.selftest import Mutant, Silent
-from sa.source import AnalysisError
+from sa.source import AnalysisError, base_names, class_assigns, methods
 from sa.props._lib_j import leaf_values, local_defs, rsrc, body_always_entered, normalise, run_sections, all_paths, mini_call, MiniStop, asserted_is, edge_asserts, is_self_attr, no_exc, node_calls, normal_exits, params, resolve
 
 PROPERTY = "C53"
@@ -25,15 +25,20 @@ EXPLANATION = (
     "re-read from tell() on every open and advanced only by len(data); an existing file is opened without truncation and "
     "positioned at its end. Not decided: the byte-exact suffix property, multi-byte size accounting (size counts characters: "
     "under-estimates only), DailyLogFile. "
+    "(d) append-only discipline: in BaseLogFile and every subclass the open handle is only ever positioned by seek(0, 2) - no seek to a computed position "
+    "(in particular not to the size counter, which counts characters of text and so falls behind the real end) and no truncate; (e) lock coverage: "
+    "LogFile (and every other wrapped subclass) is passed to threadable.synchronize and every public method from which os.rename/os.remove or a write on the "
+    "handle is reachable (through self.<m>(), <Base>.<m>(self), super().<m>()) is named in its `synchronized` list. "
     "Every anchor function is also checked to be entered on every call (no memoising/wrapping decorator, duplicate definition or rebinding). "
-    "Methods: every clause is decided structurally; the i -> i+1 clause is symbolic (same name format, index difference 1 for every i), no value is plugged in. "
+    "Methods: every clause is decided structurally (rotate() additionally evaluated on small directories, bounded); the i -> i+1 clause is symbolic (same name format, index difference 1 for every i), no value is plugged in. "
 )
 RULE_KINDS = {"*": "structural",
               "rotate/evaluated-outcome": "bounded"}  # second layer under order/shift/retention/sequence: rotate() interpreted on every subset of P.1..P.5 x 6 limits
 # "*":    # sorted/reversed typestate over all CFG paths, dominance, symbolic file-name forms (index difference), normalised comparisons
 ASSUMPTIONS = [
     "the rules read a normalised view of the anchored modules (sa/props/_lib_j.Normaliser): private helpers expanded at their call sites, module constants and single-assignment pure temporaries substituted, loops over constant tuples unrolled; evaluation order inside one statement is not modelled",
-   "os.rename is atomic; glob returns every rotated file", "LogFile is used by one thread at a time (threadable.synchronize)"]
+   "os.rename is atomic; glob returns every rotated file", "threadable.synchronize(cls) wraps exactly the methods named in cls.synchronized with one reentrant per-instance lock (that every mutating public method is named there is checked: lock/mutating-methods-synchronized)",
+    "the file position is only changed by the handle's own seek()/truncate()/write() (the descriptor is not shared); the size counter is not judged as a byte count - it may only be used for the rotation decision, never as a file position (write/handle-only-moved-to-the-real-end)"]
 
 
 def _fmt_pair(e):
@@ -767,6 +772,125 @@ def _s_open(ctx, S):
     ctx.check(w is None, "open/always-opens", q, "_openFile can return without a file", witness=g.describe(w))
 
 
+def _family(mod):
+    """the log-file classes of the module: BaseLogFile and every class that has it in its (same-module) ancestry, as {name: [class, base, base's base, ...]}"""
+    classes = {c.name: c for c in mod.tree.body if isinstance(c, ast.ClassDef)}
+
+    def chain(c, seen=()):
+        out = [c]
+        for b in base_names(c):
+            if b in classes and b not in seen:
+                out += chain(classes[b], seen + (c.name,))
+        return out
+    return {n: chain(c) for n, c in classes.items() if any(x.name == "BaseLogFile" for x in chain(c))}
+
+
+def _is_handle(e, func):
+    """``e`` is the open log file: self._file, or a local that stands for it"""
+    if src(e) == "self._file":
+        return True
+    if isinstance(e, ast.Name):
+        ls = leaf_values(func, e)
+        return bool(ls) and all(src(v) == "self._file" for v, _, _ in ls)
+    return False
+
+
+def _s_append_only(ctx, S):
+    # ================= the handle is only ever positioned at the real end =========================================================================
+    # The file is opened without O_APPEND ("rb+" / "wb+"), so where a write lands is decided by the file position.  Clause: nothing in the class family moves the
+    # position anywhere but to the real end of the file - seek(0, 2) - and nothing truncates; in particular no seek to a position taken from the in-memory
+    # size counter (which counts the characters of text arguments, not the bytes written).
+    mod = ctx.mod(LOG)
+    fam = _family(mod)
+    ctx.need("LogFile" in fam and "BaseLogFile" in fam, "BaseLogFile / LogFile class family")
+    seen = 0
+    for cname in sorted(fam):
+        for mname, m in sorted(methods(fam[cname][0]).items()):
+            q = f"twisted.python.logfile.{cname}.{mname}"
+            for c in walk_local(m):
+                if not (isinstance(c, ast.Call) and isinstance(c.func, ast.Attribute) and c.func.attr in ("seek", "truncate") and _is_handle(c.func.value, m)):
+                    continue
+                seen += 1
+                if c.func.attr == "truncate":
+                    ctx.check(False, "write/handle-only-moved-to-the-real-end", ctx.construct(q, c), f"{src(c)}: the log file is truncated - written bytes are removed")
+                    continue
+                args = [src(resolve(a, m)) if isinstance(a, ast.Name) else src(a) for a in c.args] + [f"{k.arg}={src(k.value)}" for k in c.keywords]
+                to_end = len(args) == 2 and args[0] == "0" and args[1] in ("2", "os.SEEK_END", "io.SEEK_END", "SEEK_END", "whence=2", "whence=os.SEEK_END", "whence=io.SEEK_END")
+                ctx.check(to_end, "write/handle-only-moved-to-the-real-end", ctx.construct(q, c),
+                          f"{src(c)} moves the log file's position to something other than its real end (seek(0, 2)): the next write lands inside data "
+                          f"written before and overwrites it" + (" - the size counter is advanced by len() of the argument, i.e. characters, not encoded bytes, so it "
+                                                                  "falls behind the real end after any non-ASCII text" if "size" in " ".join(args) else ""))
+    ctx.ok("write/handle-only-moved-to-the-real-end", "twisted.python.logfile", detail=f"{len(fam)} classes scanned, {seen} positioning calls on the handle")
+
+
+_MUTATORS = ("os.rename", "os.replace", "os.remove", "os.unlink")
+
+
+def _s_lock(ctx, S):
+    # ================= every public method that writes the file or renames / removes generations runs under the instance lock ======================
+    # threadable.synchronize(<class>) wraps exactly the methods named in <class>.synchronized.  A mutating public method left out of that list (rotate() called
+    # directly - twistd does on SIGUSR1) can interleave with a write() that rotates: two shifts run at once and one generation is renamed over another.
+    mod = ctx.mod(LOG)
+    fam = _family(mod)
+    ctx.need("LogFile" in fam, "LogFile class")
+    wrapped = {src(c.args[0]) for st in mod.tree.body for c in ast.walk(st) if isinstance(st, ast.Expr) and isinstance(c, ast.Call) and
+               (call_name(c) or "").split(".")[-1] == "synchronize" and len(c.args) == 1}
+    for cname in sorted(fam):
+        chain = fam[cname]
+        if cname == "BaseLogFile" or not (cname == "LogFile" or cname in wrapped):
+            continue        # the abstract base is never instantiated by itself; other subclasses are judged when they are wrapped at all
+        q = f"twisted.python.logfile.{cname}"
+        ctx.check(cname in wrapped, "lock/mutating-methods-synchronized", ctx.construct(q, "threadable.synchronize"), f"{cname} is not passed to threadable.synchronize: none of "
+                  "its methods takes the instance lock")
+
+        def lookup(name, frm=0):
+            for k in chain[frm:]:
+                ms = methods(k)
+                if name in ms:
+                    return k, ms[name]
+            return None
+        decl = next((class_assigns(k)["synchronized"] for k in chain if "synchronized" in class_assigns(k)), None)
+        ok_decl = isinstance(decl, (ast.List, ast.Tuple)) and all(isinstance(e, ast.Constant) and isinstance(e.value, str) for e in decl.elts)
+        if not ok_decl:
+            raise AnalysisError(f"{cname}.synchronized is not a literal list of method names: {src(decl) if decl is not None else '<missing>'}")
+        listed = {e.value for e in decl.elts}
+
+        def mutates(name, frm=0, seen=None):
+            """first mutating primitive reachable from method ``name`` (looked up from position ``frm`` of the ancestry), through self.<m>(), <Base>.<m>(self, ..) and super().<m>()"""
+            seen = seen if seen is not None else set()
+            got = lookup(name, frm)
+            if got is None or (name, frm) in seen:
+                return None
+            seen.add((name, frm))
+            owner, m = got
+            for c in walk_local(m):
+                if not isinstance(c, ast.Call):
+                    continue
+                cn = call_name(c) or ""
+                if cn in _MUTATORS:
+                    return f"{owner.name}.{name}: {src(c)}"
+                if isinstance(c.func, ast.Attribute) and c.func.attr in ("write", "writelines", "truncate") and _is_handle(c.func.value, m):
+                    return f"{owner.name}.{name}: {src(c)}"
+                sub = None
+                if isinstance(c.func, ast.Attribute) and src(c.func.value) == "self":
+                    sub = mutates(c.func.attr, 0, seen)
+                elif isinstance(c.func, ast.Attribute) and isinstance(c.func.value, ast.Name) and any(k.name == c.func.value.id for k in chain):
+                    sub = mutates(c.func.attr, [k.name for k in chain].index(c.func.value.id), seen)
+                elif isinstance(c.func, ast.Attribute) and isinstance(c.func.value, ast.Call) and call_name(c.func.value) == "super":
+                    sub = mutates(c.func.attr, chain.index(owner) + 1, seen)
+                if sub:
+                    return sub
+            return None
+        public = sorted({n for k in chain for n in methods(k) if not n.startswith("_")})
+        for name in public:
+            why = mutates(name)
+            if why is None:
+                continue
+            ctx.check(name in listed, "lock/mutating-methods-synchronized", ctx.construct(q, f"{name}()"),
+                      f"{cname}.{name}() writes the file or renames / removes generations ({why}) but is not named in synchronized = {sorted(listed)}: called directly it "
+                      f"runs without the instance lock and can interleave with a write() that rotates - one generation is renamed over another and lost")
+
+
 def _s_body(ctx, S):
     present = [q_ for q_ in ["LogFile.listLogs", "LogFile.rotate", "LogFile.shouldRotate", "LogFile.write", "LogFile._openFile", "BaseLogFile.write", "BaseLogFile._openFile",
                              "BaseLogFile.reopen"] if ctx.mod(LOG).find(q_) is not None]
@@ -779,7 +903,7 @@ def _s_body(ctx, S):
 def check(ctx):
     normalise(ctx, {LOG: ["_openFile"]}, scopes={LOG: ["BaseLogFile", "LogFile"]})
     run_sections(ctx, [("listLogs", _s_listlogs), ("rotate", _s_rotate), ("rotate-evaluated", _s_rotate_evaluated), ("BaseLogFile.write", _s_write), ("shouldRotate", _s_should_rotate), ("size", _s_size),
-                       ("open", _s_open), ("body-entered", _s_body)])
+                       ("open", _s_open), ("append-only", _s_append_only), ("lock-coverage", _s_lock), ("body-entered", _s_body)])
 
 
 MUTANTS = [
@@ -823,6 +947,13 @@ MUTANTS = [
     Mutant("insort-kept-list-reversed-at-the-end", LOG, '                if counter:\n                    result.append(counter)\n            except ValueError:\n                pass\n        result.sort()\n        return result\n', '                if counter:\n                    bisect.insort(result, counter)\n            except ValueError:\n                pass\n        result.reverse()\n        return result\n', expect_rule="order/listLogs-ascending"),
     Mutant("two-pass-rotate-renames-lowest-first", LOG, '        logs = self.listLogs()\n        logs.reverse()\n        for i in logs:\n            if self.maxRotatedFiles is not None and i >= self.maxRotatedFiles:\n                os.remove("%s.%d" % (self.path, i))\n            else:\n                os.rename("%s.%d" % (self.path, i), "%s.%d" % (self.path, i + 1))\n', '        logs = self.listLogs()\n        keep = len(logs)\n        if self.maxRotatedFiles is not None:\n            while keep and logs[keep - 1] >= self.maxRotatedFiles:\n                keep -= 1\n                os.remove("%s.%d" % (self.path, logs[keep]))\n        for i in logs[:keep]:\n            os.rename("%s.%d" % (self.path, i), "%s.%d" % (self.path, i + 1))\n', expect_rule="rotate/evaluated-outcome"),
     Mutant("two-pass-rotate-keeps-one-too-many", LOG, '        logs = self.listLogs()\n        logs.reverse()\n        for i in logs:\n            if self.maxRotatedFiles is not None and i >= self.maxRotatedFiles:\n                os.remove("%s.%d" % (self.path, i))\n            else:\n                os.rename("%s.%d" % (self.path, i), "%s.%d" % (self.path, i + 1))\n', '        logs = self.listLogs()\n        keep = len(logs)\n        if self.maxRotatedFiles is not None:\n            while keep and logs[keep - 1] > self.maxRotatedFiles:\n                keep -= 1\n                os.remove("%s.%d" % (self.path, logs[keep]))\n        for i in reversed(logs[:keep]):\n            os.rename("%s.%d" % (self.path, i), "%s.%d" % (self.path, i + 1))\n', expect_rule="rotate/evaluated-outcome"),
+    # ---- round-4: append-only discipline of the handle; lock coverage of the mutating public methods
+    Mutant("write-repositions-by-the-size-counter-through-an-alias", LOG, '        BaseLogFile.write(self, data)\n        self.size += len(data)\n',
+           "        handle = self._file\n        handle.seek(self.size, 0)\n        BaseLogFile.write(self, data)\n        self.size += len(data)\n",
+           expect_rule="write/handle-only-moved-to-the-real-end"),
+    Mutant("reopen-rewinds-an-existing-file", LOG, "            self._file.seek(0, 2)\n", "            self._file.seek(0, 0)\n", expect_rule="write/handle-only-moved-to-the-real-end"),
+    Mutant("lock-list-names-flush-instead-of-rotate", LOG, '    synchronized = ["write", "rotate"]\n', '    synchronized = ["write", "flush"]\n', expect_rule="lock/mutating-methods-synchronized"),
+    Mutant("LogFile-never-wrapped-by-synchronize", LOG, "threadable.synchronize(LogFile)\n", "", expect_rule="lock/mutating-methods-synchronized"),
 ]
 SILENT = [
     Silent("reversed-in-loop-header", LOG, "        logs = self.listLogs()\n        logs.reverse()\n        for i in logs:", "        logs = self.listLogs()\n        for i in reversed(logs):"),
@@ -871,4 +1002,6 @@ SILENT = [
            "        alreadyThere = os.path.exists(self.path)\n        if alreadyThere:\n            self._file = cast(BinaryIO, open(self.path, \"rb+\", 0))\n            self._file.seek(0, os.SEEK_END)\n        else:"),
     Silent("listLogs-kept-sorted-by-insort", LOG, '                if counter:\n                    result.append(counter)\n            except ValueError:\n                pass\n        result.sort()\n        return result\n', '                if counter:\n                    bisect.insort(result, counter)\n            except ValueError:\n                pass\n        return result\n', more=[(LOG, "import glob\n", "import bisect\nimport glob\n")]),
     Silent("rotate-in-a-removing-and-a-renaming-pass", LOG, '        logs = self.listLogs()\n        logs.reverse()\n        for i in logs:\n            if self.maxRotatedFiles is not None and i >= self.maxRotatedFiles:\n                os.remove("%s.%d" % (self.path, i))\n            else:\n                os.rename("%s.%d" % (self.path, i), "%s.%d" % (self.path, i + 1))\n', '        logs = self.listLogs()\n        keep = len(logs)\n        if self.maxRotatedFiles is not None:\n            while keep and logs[keep - 1] >= self.maxRotatedFiles:\n                keep -= 1\n                os.remove("%s.%d" % (self.path, logs[keep]))\n        for i in reversed(logs[:keep]):\n            os.rename("%s.%d" % (self.path, i), "%s.%d" % (self.path, i + 1))\n'),
+    Silent("write-first-moves-to-the-real-end", LOG, '        BaseLogFile.write(self, data)\n        self.size += len(data)\n', "        self._file.seek(0, os.SEEK_END)\n        BaseLogFile.write(self, data)\n        self.size += len(data)\n"),
+    Silent("lock-list-as-a-longer-tuple", LOG, '    synchronized = ["write", "rotate"]\n', '    synchronized = ("rotate", "reopen", "write", "close")\n'),
 ]
